@@ -1,7 +1,7 @@
 (* C05 - executable model of RelationSchema.validate (orso/schema.py:677-725), of the
    table lookup / isinstance test it performs (orso/types.py ORSO_TO_PYTHON_MAP, regenerated
-   into Gen/C05_Types.v) and of DataFrame.append (orso/dataframe.py:135-142) together with
-   the three ways a frame is created (dataframe.py:37-93).  No proofs here.
+   into Gen/C05_Types.v) and of DataFrame.append (orso/dataframe.py:136-143; Row.__new__ row.py:77-97,
+   Row.nbytes row.py:143-146) together with the three ways a frame is created (dataframe.py:37-93).  No proofs here.
 
    Values are abstracted to  None | object of exact class [cls] with identity [id] and a
    flag saying whether Row.nbytes (msgpack) can serialise it.  [isinstance v C] is
@@ -183,14 +183,15 @@ Definition step_validate (f : frame) (e : entry) : result unit :=
       end
   end.
 
-(* the str object that is key k, seen as a value (what tuple(mapping) yields) *)
+(* the str object that is key k, seen as a value: only used to encode an OBSERVED row cell that is a key
+   string (what the code stored for a non-dict mapping before fix 4269430); the model never produces it *)
 Definition key_value (k : key) : value := VObj cls_str (1000 + Z.of_N k) true.
 
-(* self._row_factory(entry): Row.__new__ extracts the fields from a dict and otherwise calls tuple(entry) *)
+(* self._row_factory(entry): Row.__new__ (row.py:77-97) turns a non-dict Mapping into a dict, extracts the
+   fields of a dict by name, and otherwise calls tuple(entry) *)
 Definition step_build (f : frame) (e : entry) : result row :=
   match ekind_of e with
-  | KDict => Ok (extract (fields (fk f)) (eitems e))
-  | KMapping => Ok (map key_value (keys (eitems e)))
+  | KDict | KMapping => Ok (extract (fields (fk f)) (eitems e))
   | KTuple => Ok (map snd (eitems e))
   | KScalar => Raise (AExn TypeError)
   end.
